@@ -7,6 +7,7 @@ import (
 
 	dproto "github.com/cloudwego/dynamicgo/proto"
 	pg "github.com/cloudwego/dynamicgo/proto/generic"
+	"google.golang.org/protobuf/encoding/protowire"
 	"google.golang.org/protobuf/proto"
 	"google.golang.org/protobuf/reflect/protoreflect"
 	"google.golang.org/protobuf/types/dynamicpb"
@@ -376,6 +377,18 @@ func runC10(c *h.Ctx) {
 				m = m2
 				cs.Cover("emptied_submessage_removed")
 			}
+			if len(out) <= 160 {
+				log[len(log)-1] += " => " + fmt.Sprintf("%x", out)
+			}
+			// equal messages can hide a broken layout: a length prefix that is too short pushes the tail of a
+			// sub-message into its parent, where it reads as a (repeated) singular field of the same number and the
+			// last occurrence wins. A well-formed edit never makes a singular field occur twice in one message.
+			if dup := pDupSingular(pc.Root, out, ""); dup != "" {
+				cs.Viol("pedit:"+cls+":singular-field-duplicated", "where", dup, "out", out, "log", log)
+				root = pg.NewRootValue(desc, PMarshal(m))
+				log = append(log, "(resync)")
+				continue
+			}
 			cs.Cover("op_" + cls)
 			cs.Distinct("pe-" + cls + fmt.Sprintf("-%d", step))
 		}
@@ -383,4 +396,45 @@ func runC10(c *h.Ctx) {
 			cs.Sample(map[string]interface{}{"phase": "edits", "proto": pc.Text, "ops": log, "final": fmt.Sprint(m)})
 		}
 	})
+}
+
+
+// pDupSingular walks the wire format and reports the first singular (non-repeated, non-map) field that occurs
+// more than once within one message.
+func pDupSingular(md protoreflect.MessageDescriptor, b []byte, path string) string {
+	seen := map[protowire.Number]int{}
+	for len(b) > 0 {
+		num, typ, n := protowire.ConsumeTag(b)
+		if n < 0 {
+			return ""
+		}
+		b = b[n:]
+		vn := protowire.ConsumeFieldValue(num, typ, b)
+		if vn < 0 {
+			return ""
+		}
+		val := b[:vn]
+		b = b[vn:]
+		fd := md.Fields().ByNumber(num)
+		if fd == nil {
+			continue
+		}
+		if !fd.IsList() && !fd.IsMap() {
+			seen[num]++
+			if seen[num] > 1 {
+				return fmt.Sprintf("%s/%d occurs %d times", path, num, seen[num])
+			}
+		}
+		if typ == protowire.BytesType && fd.Kind() == protoreflect.MessageKind {
+			body, _ := protowire.ConsumeBytes(val)
+			sub := fd.Message()
+			if fd.IsMap() {
+				sub = fd.Message() // entry: key=1, value=2
+			}
+			if d := pDupSingular(sub, body, fmt.Sprintf("%s/%d", path, num)); d != "" {
+				return d
+			}
+		}
+	}
+	return ""
 }
